@@ -509,7 +509,18 @@ class State:
         return dict(self.heap)
 
     def havoc(self, keys=None, keep=()):
-        """Replace heap arrays by fresh ones (all, or the listed (cls, field) keys)."""
+        """Replace heap arrays by fresh ones (all, or the listed (cls, field) keys).  Allocation is monotone: an object
+        that exists before the havoc still exists after it (nothing is ever deallocated in the model)."""
+        old_alloc = self.heap.get(("$", "alloc"))
+        try:
+            self._havoc(keys, keep)
+        finally:
+            new_alloc = self.heap.get(("$", "alloc"))
+            if old_alloc is not None and new_alloc is not None and not old_alloc.eq(new_alloc):
+                x = z3.Int(self.uniq("x"))
+                self.solver.add(z3.ForAll([x], z3.Implies(z3.Select(old_alloc, x), z3.Select(new_alloc, x)), patterns=[z3.Select(new_alloc, x)]))
+
+    def _havoc(self, keys=None, keep=()):
         for key in list(self.heap.keys()) if keys is None else keys:
             if key in keep:
                 continue
